@@ -366,6 +366,10 @@ impl Check for C05 {
     }
     fn generate(&self, rng: &mut Rng, _tier: Tier, _idx: u64) -> Scn {
         let (bytes, stack, limit) = family(rng);
+        // sometimes the very first image says *STACKSIZE NOSET: the machine keeps its power-on
+        // size (16), which is then the rule in force
+        let first_noset = rng.chance(1, 8);
+        let stack = if first_noset { 16 } else { stack };
         let max_edges = 100 + rng.below(1500) as u32;
         let mut regs = None;
         if rng.chance(1, 3) {
@@ -400,7 +404,7 @@ impl Check for C05 {
         events.sort_by_key(|e| e.0);
         // a program whose limit is 0 with AUTO etc. may start with PC invalid only through load; PC = 0 is always legal
         Scn {
-            seq: SeqScn { setup: Setup { image: Image { bytes, stack, limit, keep_limit: false }, regs, pokes: vec![], inputs: [rng.u8(), rng.u8(), rng.u8(), rng.u8()], asm_mode: false }, events, max_edges },
+            seq: SeqScn { setup: Setup { image: Image { bytes, stack: if first_noset { 99 } else { stack }, limit, keep_limit: false }, regs, pokes: vec![], inputs: [rng.u8(), rng.u8(), rng.u8(), rng.u8()], asm_mode: false }, events, max_edges },
             absorb: absorb_list(rng),
         }
     }
@@ -422,7 +426,7 @@ impl Check for C05 {
         out.extend(shrink_seq(&scn.seq, v).into_iter().map(|s| Scn { seq: s, absorb: scn.absorb.clone() }));
         out
     }
-    /// swept completely: LDSP v for every v x 5 stack sizes; JMP t for every t x a set of limits;
+    /// swept completely: LDSP v for every v x 5 stack sizes and NOSET on a fresh machine; JMP t for every t x a set of limits;
     /// NOP sled of every length x a set of limits; STOP / 0x00 at every address around a limit
     fn fixed_sweep(&self, _tier: Tier, ctx: &mut Ctx) -> Result<(), (Violation, Option<Scn>)> {
         let limits: [Option<u8>; 9] = [None, Some(0), Some(1), Some(2), Some(5), Some(0x7F), Some(0xEF), Some(0xFE), Some(0xFF)];
@@ -430,7 +434,8 @@ impl Check for C05 {
             ctx.cov.evaluations += 1;
             run_monitor(&scn, ctx).map_err(|v| (v, Some(scn)))
         };
-        for stack in [0u8, 16, 32, 48, 64] {
+        // (99 = *STACKSIZE NOSET on a fresh machine: the power-on size 16 stays in force)
+        for stack in [0u8, 16, 32, 48, 64, 99] {
             for val in 0..=255u8 {
                 // LDSP v, then PUSH and POP around it
                 let mut p = Prog::new();
